@@ -4020,3 +4020,7 @@ mod tests {
         }
     }
 }
+
+#[cfg(all(test, saito_verif))]
+#[path = "/verif/replay/in_crate/block.rs"]
+mod verif_replay;
